@@ -133,6 +133,8 @@ private:
 
 	std::map<CK_ATTRIBUTE_TYPE,OSAttribute*> _attributes;
 	std::map<CK_ATTRIBUTE_TYPE,OSAttribute*> *_transaction;
+	// Set when a statement of the running transaction failed: the transaction must not be committed
+	bool _transactionFailed;
 
 	OSAttribute* getAttributeDB(CK_ATTRIBUTE_TYPE type);
 	OSAttribute* accessAttribute(CK_ATTRIBUTE_TYPE type);
